@@ -27,9 +27,9 @@ local notation "w2" => Chunk.R.World.withCtl w c2
 section
 variable (h : CtlRelT w c2 T Inv G)
   (hparse : ∀ inp last (p : Parser (Disp γ)), Inv p.x.sink →
-    Parser.parse (envT (w2) T) inp last p = Parser.parse (w2).env inp last p →
-    (∀ e, F e → (Parser.parse (w2).env inp last p).2 ≠ .error e) →
-    Parser.parse w.env inp last p = Parser.parse (w2).env inp last p ∧
+    Parser.parse (envT (Chunk.R.World.withCtl w c2) T) inp last p = Parser.parse (Chunk.R.World.withCtl w c2).env inp last p →
+    (∀ e, F e → (Parser.parse (Chunk.R.World.withCtl w c2).env inp last p).2 ≠ .error e) →
+    Parser.parse w.env inp last p = Parser.parse (Chunk.R.World.withCtl w c2).env inp last p ∧
     ∀ n, (Parser.parse w.env inp last p).2 = .ok n → Inv (Parser.parse w.env inp last p).1.x.sink)
   (hend : ∀ d, Inv d → w.ctl.handleEnd d.ctl = c2.handleEnd d.ctl)
 include h hparse hend
@@ -169,3 +169,147 @@ theorem run_eqT (g : γ) (cfg : Settings) (hI : Inv (Disp.new w.ctl g cfg.encodi
 
 end
 end LolHtml.Model.RelI
+
+/-! ### the ghost is mapped away: states, not only results -/
+
+namespace LolHtml.Model.Hom
+open LolHtml LolHtml.Model
+open LolHtml.Thm.C01 (writeAll run Rewriter.new)
+
+variable {γ' γ : Type} {f : γ' → γ}
+
+/-- the mapped rewriter is determined -/
+theorem RRh_fun {r' : Rewriter γ'} {r₁ r₂ : Rewriter γ} (h₁ : RRh f r' r₁) (h₂ : RRh f r' r₂) : r₁ = r₂ := by
+  obtain ⟨⟨⟨a1, b1, c1, d1, e1, x1, y1, z1⟩, sb1, sh1, sc1, sn1⟩, p1, q1⟩ := h₁
+  obtain ⟨⟨⟨a2, b2, c2, d2, e2, x2, y2, z2⟩, sb2, sh2, sc2, sn2⟩, p2, q2⟩ := h₂
+  obtain ⟨⟨⟨lc, lr, sc, sr, dr, ⟨sk, sm, pc⟩⟩, bf, hb, cf, nr⟩, po, en⟩ := r₁
+  obtain ⟨⟨⟨lc', lr', sc', sr', dr', ⟨sk', sm', pc'⟩⟩, bf', hb', cf', nr'⟩, po', en'⟩ := r₂
+  unfold HR at x1 x2
+  simp only at a1 b1 c1 d1 e1 x1 y1 z1 sb1 sh1 sc1 sn1 p1 q1 a2 b2 c2 d2 e2 x2 y2 z2 sb2 sh2 sc2 sn2 p2 q2
+  subst a1 b1 c1 d1 e1 x1 y1 z1 sb1 sh1 sc1 sn1 p1 q1
+  subst a2 b2 c2 d2 e2 x2 y2 z2 sb2 sh2 sc2 sn2 p2 q2
+  rfl
+
+section
+variable {w : World γ} {c' : Controller γ'}
+variable (h : CtlHom c' w.ctl f) (ht : EmitsChecked w.tbl = true)
+include h ht
+
+local notation "w'" => worldOf w c'
+
+/-- `HtmlRewriter::end`: the states are related too -/
+theorem rewriter_end_hr' {r' : Rewriter γ'} {r : Rewriter γ} (hr : RRh f r' r) :
+    RRh f (r'.end w').1 (r.end w).1 := by
+  obtain ⟨hs, hp, he⟩ := hr
+  unfold Rewriter.end
+  rw [hp]
+  by_cases hpp : r.poisoned = true
+  · rw [if_pos hpp, if_pos hpp]
+    exact ⟨hs, hp, he⟩
+  · rw [if_neg hpp, if_neg hpp]
+    obtain ⟨w1, w2⟩ := end_hr h ht hs
+    dsimp only
+    rw [w2]
+    cases (r.stream.end w).2 with
+    | ok u => exact ⟨w1, rfl, rfl⟩
+    | error e => exact ⟨w1, rfl, rfl⟩
+
+/-- complete runs: final states related, results equal -/
+theorem run_hr (g' : γ') (cfg : Settings) (cs : List Bytes) :
+    RRh f (run w' (Rewriter.new w' g' cfg) cs).1 (run w (Rewriter.new w (f g') cfg) cs).1 := by
+  have hnew : RRh f (Rewriter.new w' g' cfg) (Rewriter.new w (f g') cfg) := by
+    refine ⟨⟨?_, rfl, rfl, rfl, rfl⟩, rfl, rfl⟩
+    simp only [Rewriter.new, Stream.new, worldOf, h.initialFlags g']
+    refine ⟨rfl, rfl, rfl, rfl, rfl, ?_, rfl, rfl⟩
+    show mapD f _ = _
+    simp only [Parser.new, Disp.new, mapD, h.initialFlags g']
+  obtain ⟨a1, a2⟩ := writeAll_hr h ht cs hnew
+  simp only [run]
+  exact rewriter_end_hr' h ht a1
+
+end
+end LolHtml.Model.Hom
+
+namespace LolHtml.Thm.Full
+open LolHtml LolHtml.Model LolHtml.Model.Full LolHtml.Model.Handlers LolHtml.EditModel LolHtml.Lemmas.Full
+open LolHtml.Thm.C01 (run writeAll Rewriter.new)
+open LolHtml.Model.RelI LolHtml.Model.Hint
+
+/-- the refusals are panics -/
+theorem xfires_panic {cfg : Cfg} {e : Err}
+    (hF : XFires (withArgs argSite (andGuard (kindGuard (γ := FullSt cfg)) wmGuard)) e) : ∃ s, e = .panic s := by
+  rcases hF with hF | hF
+  · rcases argsKW_fires hF with rfl | rfl | rfl | rfl | rfl <;> exact ⟨_, rfl⟩
+  · exact ⟨_, hF⟩
+
+/-- one parse call, guards removed: if over the cleaned controller the guarded parse is the plain one and returns no
+refusal, the plain REAL parse is the plain cleaned parse -/
+theorem Full_parse_eq (cfg : Cfg) (inp : Bytes) (last : Bool) (p : Parser (Disp (FullStH cfg))) (hI : InvY cfg p.x.sink)
+    (h2 : Parser.parse (envT (cleanWorldH cfg) (XT (withArgs argSite (andGuard kindGuard wmGuard)))) inp last p =
+      Parser.parse (cleanWorldH cfg).env inp last p)
+    (h2n : ∀ e, XFires (withArgs argSite (andGuard (kindGuard (γ := FullSt cfg)) wmGuard)) e →
+      (Parser.parse (cleanWorldH cfg).env inp last p).2 ≠ .error e) :
+    Parser.parse (genWorldH cfg).env inp last p = Parser.parse (cleanWorldH cfg).env inp last p ∧
+    ∀ n, (Parser.parse (genWorldH cfg).env inp last p).2 = .ok n →
+      InvY cfg (Parser.parse (genWorldH cfg).env inp last p).1.x.sink := by
+  obtain ⟨g1, g2⟩ := Full_parse_eq_guarded cfg inp last p hI
+  have r3 := RelE.parse_relE (tbl := Gen.Syntax.table) (cfg := Gen.Tags.cfg) (inp := inp)
+    (xt_relReal (withArgs argSite (andGuard kindGuard wmGuard)) (genWorldH cfg).ctl inp) C03.C03_emitsChecked_gen last p p (PR_refl p)
+  have heq : Parser.parse (envT (genWorldH cfg) (XT (withArgs argSite (andGuard kindGuard wmGuard)))) inp last p =
+      Parser.parse (genWorldH cfg).env inp last p := by
+    rcases r3 with ⟨hp, hres⟩ | ⟨e, hF, hres⟩
+    · exact Prod.ext (PR_eq' hp) hres
+    · exfalso
+      obtain ⟨s, rfl⟩ := xfires_panic hF
+      have hres' : (Parser.parse (envT (genWorldH cfg) (XT (withArgs argSite (andGuard kindGuard wmGuard)))) inp last p).2 =
+          .error (.panic s) := hres
+      rw [g1, h2] at hres'
+      exact h2n _ hF hres'
+  rw [← heq]
+  exact ⟨by rw [g1, h2], g2⟩
+
+/-- `handle_end` of the real controller is that of the cleaned one on every `InvY` state -/
+theorem Full_handleEnd_eq (cfg : Cfg) (d : Disp (FullStH cfg)) (hI : InvY cfg d) :
+    (genWorldH cfg).ctl.handleEnd d.ctl = (cleanCtlH cfg).handleEnd d.ctl := by
+  rcases (fullCtlH_sim cfg).handleEnd d.ctl (invX_DO hI.1) with ⟨he, _⟩ | ⟨e, ⟨hG, _⟩, he⟩
+  · exact he
+  · have : e = .handler := Full_handleEnd_clean cfg d.ctl.1 (invX_fault hI.1) e he
+    subst this
+    rcases hG with ⟨m, hm, _⟩ | ⟨s, hs⟩
+    · cases hm
+    · cases hs
+
+/-- the complete runs with the ghost are the same run -/
+theorem Full_real_eq_clean_H (cfg : Cfg) (settings : Settings) (chunks : List Bytes) :
+    run (genWorldH cfg) (Rewriter.new (genWorldH cfg) (FullSt.init cfg, none) settings) chunks =
+      run (cleanWorldH cfg) (Rewriter.new (cleanWorldH cfg) (FullSt.init cfg, none) settings) chunks := by
+  obtain ⟨hI, hL⟩ := Full_scan_opsX cfg
+  exact run_eqT (w := genWorldH cfg) (c2 := cleanCtlH cfg) hL.toT
+    (fun inp last p hp h2 h2n => Full_parse_eq cfg inp last p hp h2 h2n)
+    (fun d hd => Full_handleEnd_eq cfg d hd) (FullSt.init cfg, none) settings (hI settings.encoding)
+    (Full_clean_guardX' cfg settings) chunks
+
+/-- **Full_real_eq_clean.** For every configuration, settings record and chunking, the complete run `write* ; end` over
+the REAL controller IS the run over the cleaned controller `cleanCtl (fullCtl cfg)`: the same final rewriter state (sink
+log, dispatcher, controller state, parser, buffer) and the same call results. UNCONDITIONAL — no internal-class
+alternative: the protocol invariant `InvY` excludes it. -/
+theorem Full_real_eq_clean : Full_real_eq_clean_statement := by
+  intro cfg settings chunks
+  have hH := Full_real_eq_clean_H cfg settings chunks
+  have r1 := Hom.run_hr (w := genWorld cfg) (c' := fullCtlH cfg) (f := Prod.fst) (hintCtl_hom (fullCtl cfg))
+    C03.C03_emitsChecked_gen (FullSt.init cfg, none) settings chunks
+  have r2 := Hom.run_hr (w := cleanWorld cfg) (c' := cleanCtlH cfg) (f := Prod.fst)
+    (hintCtl_hom (Chunk.R.cleanCtl (fullCtl cfg))) C03.C03_emitsChecked_gen (FullSt.init cfg, none) settings chunks
+  have e1 := run_hint (genWorld cfg) C03.C03_emitsChecked_gen (FullSt.init cfg) none settings chunks
+  have e2 := run_hint (cleanWorld cfg) C03.C03_emitsChecked_gen (FullSt.init cfg) none settings chunks
+  have r2' : Hom.RRh Prod.fst (run (genWorldH cfg) (Rewriter.new (genWorldH cfg) (FullSt.init cfg, none) settings) chunks).1
+      (run (cleanWorld cfg) (Rewriter.new (cleanWorld cfg) (FullSt.init cfg) settings) chunks).1 := by
+    rw [hH]; exact r2
+  refine Prod.ext (Hom.RRh_fun r1 r2') ?_
+  have e1' : (run (genWorldH cfg) (Rewriter.new (genWorldH cfg) (FullSt.init cfg, none) settings) chunks).2 =
+      (run (genWorld cfg) (Rewriter.new (genWorld cfg) (FullSt.init cfg) settings) chunks).2 := e1
+  have e2' : (run (cleanWorldH cfg) (Rewriter.new (cleanWorldH cfg) (FullSt.init cfg, none) settings) chunks).2 =
+      (run (cleanWorld cfg) (Rewriter.new (cleanWorld cfg) (FullSt.init cfg) settings) chunks).2 := e2
+  rw [← e1', ← e2', hH]
+
+end LolHtml.Thm.Full
